@@ -103,6 +103,57 @@ def contains(t, needle):
     return False
 
 
+CMP_OPS = ('Eq', 'Ne', 'Lt', 'Le', 'Gt', 'Ge')
+
+
+def _operand_key(t):
+    # constants last, otherwise a stable structural order
+    return (1 if t[0] in ('int', 'f64', 'bool', 'constref') else 0, repr(t))
+
+
+def cmp_atom(op, a, b, ty):
+    """Canonical comparison atom: `a > b` is `b < a`, `a >= b` is `b <= a` (exact for floats too, NaN included), and the
+    operands of == / != are put in a fixed order.  Whichever way round the source spells a comparison, the interpreter
+    produces the same atom, so rules are written against {Lt, Le, Eq, Ne} only."""
+    if op == 'Gt':
+        op, a, b = 'Lt', b, a
+    elif op == 'Ge':
+        op, a, b = 'Le', b, a
+    elif op in ('Eq', 'Ne') and _operand_key(b) < _operand_key(a):
+        a, b = b, a
+    return ('bin', op, a, b, ty)
+
+
+def holds(cons, op, a, b, float_ok=False):
+    """True when the path constraints `cons` contain the fact `a op b` (op in '<', '<=', '==', '!=', or '!<' / '!<=' for a
+    comparison known to be false), in either of its canonical spellings: `a < b` true, or (integers only) `b <= a` false."""
+    def truth(v):
+        return (v != 0) if isinstance(v, int) else True
+    for t, v in cons:
+        if t[0] != 'bin' or t[1] not in CMP_OPS:
+            continue
+        isf = str(t[4]).startswith('f')
+        tv = truth(v)
+        o, x, y = t[1], t[2], t[3]
+        if op == '<':
+            if (o == 'Lt' and tv and x == a and y == b) or (o == 'Le' and not tv and x == b and y == a and (float_ok or not isf)):
+                return True
+        elif op == '<=':
+            if (o == 'Le' and tv and x == a and y == b) or (o == 'Lt' and not tv and x == b and y == a and (float_ok or not isf)):
+                return True
+        elif op == '!<':
+            if (o == 'Lt' and not tv and x == a and y == b) or (o == 'Le' and tv and x == b and y == a):
+                return True
+        elif op == '!<=':
+            if (o == 'Le' and not tv and x == a and y == b) or (o == 'Lt' and tv and x == b and y == a):
+                return True
+        elif op in ('==', '!='):
+            if {x, y} == {a, b} or (x == a and y == b) or (x == b and y == a):
+                if (o == 'Eq' and tv == (op == '==')) or (o == 'Ne' and tv == (op == '!=')):
+                    return True
+    return False
+
+
 def term_str(t, depth=0):
     if not isinstance(t, tuple) or not t:
         return repr(t)
@@ -636,6 +687,8 @@ class Interp:
             return ('bool', True)
         if a == b and not ty.startswith('f') and base in ('Ne', 'Lt', 'Gt'):
             return ('bool', False)
+        if base in CMP_OPS:
+            return cmp_atom(base, a, b, ty)
         return ('bin', base, a, b, ty)
 
     def rvalue(self, st, fr, rv):
@@ -1659,7 +1712,7 @@ class Interp:
             if x[0] == 'ref' or y[0] == 'ref':
                 x = self.strip_ref(st, x) if x[0] == 'ref' else x
                 y = self.strip_ref(st, y) if y[0] == 'ref' else y
-            return ('bin', op, x, y, 'partial_eq')
+            return cmp_atom(op, x, y, 'partial_eq')
         if decl in ('std::boxed::Box::<T>::new_uninit', 'std::boxed::box_assume_init_into_vec_unsafe'):
             if decl.endswith('into_vec_unsafe'):
                 content = self.read(st, (('T', a0), ()))
